@@ -71,6 +71,18 @@ Proof.
 Qed.
 Print Assumptions dns_cache_sound.
 
+(* 6'. ... and when the negative TTL is taken from the response (putNegative without an explicit TTL), an SOA record
+      bounds it by BOTH its MINIMUM field and its own TTL: the negative answer is served strictly before
+      put-time + min(MINIMUM, TTL) of the first SOA record. *)
+Theorem dns_negative_ttl_from_soa : forall default h c rs i t n ty cl v mn sttl soas auth t0 n',
+  c_run default [] h = (c, rs) ->
+  nth_error h i = Some (t, CGet n ty cl) -> nth_error rs i = Some (Some (v, true)) ->
+  (forall t1 n1 ttl1, In (t1, CPutNeg n1 ty cl v ttl1) (firstn i h) ->
+     t1 = t0 /\ n1 = n' /\ ttl1 = neg_ttl default ((mn, sttl) :: soas) auth) ->
+  t < t0 + mn /\ t < t0 + sttl.
+Proof. exact negative_ttl_from_soa. Qed.
+Print Assumptions dns_negative_ttl_from_soa.
+
 (* 7. "Any well-formed response decodes to exactly the records it encodes" is FALSE of
       the model (and the code): the A record 192.0.0.0 is rejected as a "malicious
       compression pointer" (known finding C19-F4b; pinned by the repository's own test
@@ -104,4 +116,11 @@ Example cache_instance :
   snd (c_run 300 [] [(10, CPut [65; 66] 1 1 7 5); (14, CGet [97; 98] 1 1); (15, CGet [97; 98] 1 1);
                      (16, CPut [97] 1 1 8 0); (17, CGet [97] 1 1)])
   = [None; Some (7, false); None; None; None].
+Proof. vm_compute. reflexivity. Qed.
+
+(* negative answer with SOA MINIMUM 3600 and TTL 2, put at t = 10: served at 11, not at 12 *)
+Example negative_ttl_instance :
+  let put := cput_neg_auto 300 [120] 1 1 7 [(3600, 2)] [] in
+  snd (c_run 300 [] [(10, put); (11, CGet [88] 1 1); (12, CGet [120] 1 1)]) =
+  [None; Some (7, true); None].
 Proof. vm_compute. reflexivity. Qed.
